@@ -24,6 +24,7 @@ import (
 	"errors"
 	"fmt"
 	"io"
+	"math"
 	"net"
 	"net/http"
 	"strconv"
@@ -42,13 +43,17 @@ type proxyConn struct {
 	secure bool
 	mitm   bool // the TLS session was terminated by handleMITM
 	cs     tls.ConnectionState
+	lr     *io.LimitedReader // what brw.Reader reads from; N is the request head limit while a head is read
 }
 
 func newProxyConn(p *Proxy, conn net.Conn) *proxyConn {
+	// All reads go through lr so that readRequest can bound the size of a request head.
+	lr := &io.LimitedReader{R: conn, N: math.MaxInt64}
 	return &proxyConn{
 		Proxy: p,
-		brw:   bufio.NewReadWriter(bufio.NewReader(conn), bufio.NewWriter(conn)),
+		brw:   bufio.NewReadWriter(bufio.NewReader(lr), bufio.NewWriter(conn)),
 		conn:  conn,
+		lr:    lr,
 	}
 }
 
@@ -107,7 +112,11 @@ func (p *proxyConn) readRequest() (*http.Request, error) {
 		log.Error(context.TODO(), "can't set read header deadline", "error", deadlineErr)
 	}
 
+	// Like net/http's server, do not buffer a request head without bound: a head larger than this ends the
+	// connection (the reader reports EOF). The limit is lifted again for the body.
+	p.lr.N = http.DefaultMaxHeaderBytes + 4096
 	req, err := http.ReadRequest(p.brw.Reader)
+	p.lr.N = math.MaxInt64
 	if err != nil {
 		return nil, err
 	}
@@ -222,7 +231,8 @@ func (p *proxyConn) handleMITM(req *http.Request) error {
 		}
 
 		p.brw.Writer.Reset(tlsconn)
-		p.brw.Reader.Reset(tlsconn)
+		p.lr.R = tlsconn
+		p.brw.Reader.Reset(p.lr)
 
 		p.conn = tlsconn
 		p.secure = true
@@ -233,7 +243,8 @@ func (p *proxyConn) handleMITM(req *http.Request) error {
 	}
 
 	// Prepend the previously read data to be read again by http.ReadRequest.
-	p.brw.Reader.Reset(io.MultiReader(bytes.NewReader(buf), p.conn))
+	p.lr.R = io.MultiReader(bytes.NewReader(buf), p.conn)
+	p.brw.Reader.Reset(p.lr)
 	return nil
 }
 
